@@ -76,7 +76,17 @@ Definition cast_cols (c : list label) : list label := if existsb is_str c then m
 Definition mask_select {A} (mask : list bool) (l : list A) : list A := map snd (filter fst (combine mask l)).
 
 (* ---------------------------------------------------------------------------------------- metadata *)
-Definition to_dict (idx : list label) (m : mcols) : mdict := map (fun cv => (fst cv, combine idx (snd cv))) m.
+(* a Python dict built from (key, value) pairs in order (`dict(zip(index, cells))`, which is what Series.to_dict does):
+   a key that occurs again keeps the position of its FIRST occurrence and takes the value of the LAST one - so an index
+   with a repeated label collapses to one entry per distinct label *)
+Fixpoint dict_set (k : label) (v : mval) (d : list (label * mval)) : list (label * mval) :=
+  match d with
+  | [] => [(k, v)]
+  | (k', v') :: r => if label_eqb k k' then (k', v) :: r else (k', v') :: dict_set k v r
+  end.
+Definition py_dict (l : list (label * mval)) : list (label * mval) :=
+  fold_left (fun d kv => dict_set (fst kv) (snd kv) d) l [].
+Definition to_dict (idx : list label) (m : mcols) : mdict := map (fun cv => (fst cv, py_dict (combine idx (snd cv)))) m.
 Definition from_dict (d : mdict) : list label * mcols :=
   (match d with [] => [] | ckv :: _ => map fst (snd ckv) end, map (fun ckv => (fst ckv, map snd (snd ckv))) d).
 (* set_info(DataFrame): the frame's index must equal the object's metadata index *)
@@ -448,6 +458,9 @@ Definition WF_tensor (x : tsd) : Prop :=
 Definition WF_frame (x : frame) : Prop :=
   WF_series (f_t x) (f_sup x) /\ length (f_v x) = length (f_t x) /\ homogeneous (f_cols x)
   /\ WF_meta (length (f_cols x)) (f_meta x).
+(* no column label occurs twice, or there is no metadata column (a repeated label only matters through the dict of
+   `_metadata.to_dict()`, see [to_dict]) *)
+Definition unique_labels_or_no_meta (x : frame) : Prop := NoDup (f_cols x) \/ f_meta x = [].
 Definition WF_iset (x : isetm) : Prop := canonical (i_iv x) /\ WF_meta (length (i_iv x)) (i_meta x).
 
 Definition member_times (m : member) : list Z := map fst (samples m).
